@@ -160,8 +160,18 @@ def check(ctx):
     # writing: a probe like `std::ofstream(filename_)` truncates the checkpoint of the previous job
     nother = 0
     for rec in set(f.record for f in cbs if f.record is not None):
+        # private helpers reached from operator() are part of the protocol checked by R1 (they are inlined there)
+        own, todo = set(), [m for m in rec.methods if m.name == 'operator()' and m.body is not None]
+        while todo:
+            g = todo.pop()
+            for n in g.body.walk():
+                if n.op in ('mcall', 'call') and n.a.get('hep') and n.a.get('id') not in own:
+                    h = p.funcs.get(n.a['id'])
+                    if h is not None and h.body is not None and h.record is rec:
+                        own.add(n.a['id'])
+                        todo.append(h)
         for m in rec.methods:
-            if m.body is None or m.is_pattern or m.name == 'operator()':
+            if m.body is None or m.is_pattern or m.name == 'operator()' or m.id in own:
                 continue
             nother += 1
 
